@@ -1025,7 +1025,7 @@ PROPS = {
                     "response_wellformed about TT/Model/H1.lean under the hypothesis PrefixConsistent(parser)"
                     "; relaying_goes_on, relayed_until_close, session_ends_with_either_side, abort_is_not_graceful, "
                     "upload_without_source_fails about the relaying loop (TT/Model/H1Relay.lean)",
-        trusted=["httparse satisfies PrefixConsistent and agrees with 'head ends at the first CRLF CRLF' on the generated valid heads "
+        trusted=["httparse satisfies PrefixConsistent and agrees with 'head ends at its first empty line, lines ending in CR LF or LF' on the generated valid heads "
                  "(exercised on every prefix through the 1-cut and byte-wise runs)",
                  "tokio mpsc/Notify/select! semantics in the listen loop; download relaying ends when the client closes (by design)"],
         assumptions=["head.length <= 1024 for the invariance theorem: longer heads may be rejected depending on segmentation"],
